@@ -23,15 +23,26 @@ Print Assumptions C06_chain.
    request that fails routing, exactly the container filters around the error writer and no
    service or route filter ([expected_events]).  The chain is built inside dispatch from
    the configuration: the statement holds from ANY starting state [s], so nothing an
-   earlier request left behind can change it. *)
+   earlier request left behind can change it.  ([routed_request]: the path is not one a plain handler was
+   registered on with Handle / HandleWithFilter; those are C06_plain.) *)
 Definition C06_request_statement : Prop :=
   forall (O : oracles) (cfg : dcfg) (en : entry) (req : request) (s : rstate),
-    cfg_has_panic cfg = false ->
+    routed_request cfg req -> cfg_has_panic cfg = false ->
     route_request O (d_table cfg) req <> RPanic ->
     exists s', serve O cfg en req s = Done s' /\ slog s' = slog s ++ expected_events O cfg req.
 Theorem C06_request : C06_request_statement.
 Proof. exact serve_events. Qed.
 Print Assumptions C06_request.
+
+(* HandleWithFilter: exactly the container filters, once, in order, around the plain http.Handler (Handle: none) *)
+Definition C06_plain_statement : Prop :=
+  forall (cfg : dcfg) (wf : bool) (script : list action) (req : request) (s : rstate),
+    forallb fscript_panic_free (d_cfilters cfg) = true -> panic_free script = true ->
+    exists s', handle_plain cfg wf script req s = Done s' /\
+               slog s' = slog s ++ (if wf then chain_events (d_cfilters cfg) [] else []).
+Theorem C06_plain : C06_plain_statement.
+Proof. exact plain_events. Qed.
+Print Assumptions C06_plain.
 
 Example C06_example :
   let f (id : string) pass := {| f_id := L id; f_pre := []; f_pass := pass; f_post := []; f_fresh := false; f_mw := 0 |} in
